@@ -4,9 +4,107 @@ import (
 	"fmt"
 
 	"connectrpc.com/vanguard"
+	"google.golang.org/protobuf/proto"
+	"google.golang.org/protobuf/reflect/protodesc"
 	"google.golang.org/protobuf/reflect/protoreflect"
+	"google.golang.org/protobuf/reflect/protoregistry"
+	"google.golang.org/protobuf/types/descriptorpb"
+	"google.golang.org/protobuf/types/dynamicpb"
 )
 
+// Ways of supplying one and the same schema to NewTranscoder (C20).
+
+// noParentService hides the parent file of a service descriptor.
+type noParentService struct {
+	protoreflect.ServiceDescriptor
+}
+
+func (noParentService) ParentFile() protoreflect.FileDescriptor { return nil }
+
+// notFoundResolver knows nothing.
+type notFoundResolver struct{}
+
+func (notFoundResolver) FindMessageByName(protoreflect.FullName) (protoreflect.MessageType, error) {
+	return nil, protoregistry.NotFound
+}
+func (notFoundResolver) FindMessageByURL(string) (protoreflect.MessageType, error) {
+	return nil, protoregistry.NotFound
+}
+func (notFoundResolver) FindExtensionByName(protoreflect.FullName) (protoreflect.ExtensionType, error) {
+	return nil, protoregistry.NotFound
+}
+func (notFoundResolver) FindExtensionByNumber(protoreflect.FullName, protoreflect.FieldNumber) (protoreflect.ExtensionType, error) {
+	return nil, protoregistry.NotFound
+}
+
+// privateFiles rebuilds file and all its dependencies in a registry of their own. If dynamicOptions is set, the
+// descriptors are re-parsed with extension types taken from that private registry, so that custom options such as
+// google.api.http arrive as dynamic messages rather than as generated Go types.
+func privateFiles(file protoreflect.FileDescriptor, dynamicOptions bool) (*protoregistry.Files, protoreflect.FileDescriptor, error) {
+	files := &protoregistry.Files{}
+	var build func(fd protoreflect.FileDescriptor) (protoreflect.FileDescriptor, error)
+	build = func(fd protoreflect.FileDescriptor) (protoreflect.FileDescriptor, error) {
+		if got, err := files.FindFileByPath(fd.Path()); err == nil {
+			return got, nil
+		}
+		imps := fd.Imports()
+		for i := 0; i < imps.Len(); i++ {
+			if _, err := build(imps.Get(i).FileDescriptor); err != nil {
+				return nil, err
+			}
+		}
+		fdp := protodesc.ToFileDescriptorProto(fd)
+		if dynamicOptions {
+			raw, err := proto.Marshal(fdp)
+			if err != nil {
+				return nil, err
+			}
+			fdp = &descriptorpb.FileDescriptorProto{}
+			if err := (proto.UnmarshalOptions{Resolver: dynamicpb.NewTypes(files)}).Unmarshal(raw, fdp); err != nil {
+				return nil, err
+			}
+		}
+		nf, err := protodesc.NewFile(fdp, files)
+		if err != nil {
+			return nil, err
+		}
+		if err := files.RegisterFile(nf); err != nil {
+			return nil, err
+		}
+		return nf, nil
+	}
+	nf, err := build(file)
+	return files, nf, err
+}
+
 func alternateSchemaImpl(via string, sch *Schema) (protoreflect.ServiceDescriptor, []vanguard.ServiceOption, error) {
+	orig := sch.Service
+	switch via {
+	case "fresh":
+		// a new file built from the serialised descriptor, dependencies resolved in the global registry
+		fdp := protodesc.ToFileDescriptorProto(orig.ParentFile())
+		nf, err := protodesc.NewFile(fdp, protoregistry.GlobalFiles)
+		if err != nil {
+			return nil, nil, err
+		}
+		return nf.Services().ByName(orig.Name()), nil, nil
+	case "private":
+		_, nf, err := privateFiles(orig.ParentFile(), true)
+		if err != nil {
+			return nil, nil, err
+		}
+		return nf.Services().ByName(orig.Name()), nil, nil
+	case "noparent":
+		return noParentService{orig}, nil, nil
+	case "notfound":
+		return orig, []vanguard.ServiceOption{vanguard.WithTypeResolver(notFoundResolver{})}, nil
+	case "fresh-notfound":
+		fdp := protodesc.ToFileDescriptorProto(orig.ParentFile())
+		nf, err := protodesc.NewFile(fdp, protoregistry.GlobalFiles)
+		if err != nil {
+			return nil, nil, err
+		}
+		return nf.Services().ByName(orig.Name()), []vanguard.ServiceOption{vanguard.WithTypeResolver(notFoundResolver{})}, nil
+	}
 	return nil, nil, fmt.Errorf("schema provenance %q not implemented", via)
 }
